@@ -208,7 +208,14 @@ theorem restart_frame {s s' : State} (h : s.restart = some s') :
   unfold State.restart at h
   dsimp only at h
   repeat' split at h
-  all_goals first | (simp at h; done) | (simp only [Option.some.injEq] at h; subst h; exact ⟨rfl, rfl, rfl, rfl, rfl⟩)
+  all_goals first
+    | (simp at h; done)
+    | (simp only [Option.some.injEq] at h; subst h; exact ⟨rfl, rfl, rfl, rfl, rfl⟩)
+    | (simp only [Option.some.injEq] at h
+       subst h
+       -- `NewChain` re-applies the best block: `ApplyBlock` touches the casper part only
+       exact ⟨(applyBlock_casperOnly _ _).orphans, (applyBlock_casperOnly _ _).prevOrphans,
+         (applyBlock_casperOnly _ _).headers, (applyBlock_casperOnly _ _).cfg, (applyBlock_casperOnly _ _).defs⟩)
 
 /-- **a restart preserves the orphan-pool invariant** (the pool is empty afterwards) -/
 theorem inv_restart {U : Universe} {s s' : State} (hI : Inv U s) (h : s.restart = some s') : Inv U s' := by
